@@ -13,7 +13,7 @@ from fractions import Fraction
 
 import z3
 
-from .poly import (Poly, RF, ONE, ZERO, rf_add, rf_mul, rf_inv, rf_neg, rf_diff, rf_subst, signpoly)
+from .poly import (Poly, RF, ONE, ZERO, rf_add, rf_mul, rf_inv, rf_neg, rf_diff, rf_subst, signpoly, mono_div)
 
 _float = builtins.float
 _print = builtins.print
@@ -160,6 +160,21 @@ def cmp_poly(p, op):
         p = _ENG.apply_rewrites(p)
     if p.is_const():
         return _OPS[op](p.cval())
+    if VARS.positive and len(p.t) > 1:
+        # a positive variable dividing every term does not change the sign / zero set: divide it out
+        # (keeps  alpha*u + beta <= alpha*k + beta  linear)
+        common = None
+        for m in p.t:
+            cur = {v: k for v, k in m if v in VARS.positive}
+            if common is None:
+                common = cur
+            else:
+                common = {v: min(k, cur[v]) for v, k in common.items() if v in cur}
+            if not common:
+                break
+        if common:
+            g = tuple(sorted(common.items()))
+            p = Poly({mono_div(m, g): c for m, c in p.t.items()})
     z = poly_to_z3(p)
     lin = p.is_linear()
     return SymBool(_OPS[op](z), lin, frozenset(p.vars()), (op, p) if (lin and op in ('==', '!=')) else None)
@@ -523,6 +538,15 @@ class MathShim:
         if isinstance(x, SymReal) and not x.is_const():
             return _ENG.trig(x)[1]
         return _lift_trig(_math.sin, x)
+
+    def isclose(self, a, b, rel_tol=1e-09, abs_tol=0.0):
+        if not (isinstance(a, SymReal) or isinstance(b, SymReal)):
+            return _math.isclose(a, b, rel_tol=rel_tol, abs_tol=abs_tol)
+        a, b = sym(a), sym(b)
+        if bool(a == b):
+            return True
+        d = abs(a - b)
+        return bool(d <= rel_tol * abs(b)) or bool(d <= rel_tol * abs(a)) or bool(d <= abs_tol)
 
     def floor(self, x):
         return _math.floor(x)
